@@ -243,7 +243,9 @@ func checkLoopCarriedStructs(c *Ctx, rule string, fnNames []string) {
 					bad := false
 					for _, entry := range l.bodyEntries() {
 						q := &PathQuery{Fn: fn, Barrier: func(i ssa.Instruction) bool { return i == ssa.Instruction(st) }}
-						q.EdgeBarrier = func(from *ssa.BasicBlock, si int) bool { return !l.Blocks[from.Succs[si]] || from.Succs[si] == l.Header }
+						q.EdgeBarrier = func(from *ssa.BasicBlock, si int) bool {
+							return !l.Blocks[from.Succs[si]] || from.Succs[si] == l.Header
+						}
 						q.Target = func(i ssa.Instruction, via *ssa.BasicBlock) bool { return i == u }
 						if len(exploreFromBlock(q, entry, l.Header)) > 0 {
 							bad = true
@@ -521,7 +523,7 @@ func checkSeekHeightNonNegative(c *Ctx, rule string) {
 				"a height that can be negative is handed to a seeking block iterator in "+fnName(fn)+": converted to uint32 it lies above every block record, so the scan starts past the end and visits nothing (e.g. the confirmation/maturity correction is skipped on a chain shorter than the window)")
 		}
 	}
-	c.Floor(rule, "seeking block iterator constructions", n, 2)
+	c.Floor(rule, "seeking block iterator constructions", n, 1)
 }
 
 // checkElementIndexFromOwnLoop: the store's per-input records (debits) are keyed by (tx hash, INPUT index) and
